@@ -347,3 +347,8 @@ def _codecs(repo: Repo, rep: Report) -> None:
             else:
                 rep.violation("R13.5", init.key if init else ci.key, f"{ci.name}: default_dialect not passed through unchanged", "codecs without a format dialect hand the user's dialect to the builder as is")
     rep.floor("R13.5", 12)
+
+
+_ADDENDUM = ' R13.9: helper definitions installed on a shared holder carry a per-compilation token. Borrowed: R08.2 (option lookup chain call dialect > default dialect > Config.dialect > Config).'
+EXPLANATION += _ADDENDUM
+LEVEL_TEXT += _ADDENDUM
